@@ -101,8 +101,11 @@ static int precache_data_block(sqfs_data_reader_t *data, sqfs_u64 location,
 {
 	if (data->data_block != NULL && data->current_block == location &&
 	    data->current_block_size == size) {
+		VERIF_EVENT(31, 0, location, 0);
 		return 0;
 	}
+
+	VERIF_EVENT(31, 1, location, 0);
 
 	free(data->data_block);
 	data->current_block = location;
@@ -116,6 +119,9 @@ static int precache_fragment_block(sqfs_data_reader_t *data, size_t idx)
 {
 	sqfs_fragment_t ent;
 	int ret;
+
+	VERIF_EVENT(31, (data->frag_block != NULL &&
+			 idx == data->current_frag_index) ? 0 : 1, idx, 1);
 
 	if (data->frag_block != NULL && idx == data->current_frag_index)
 		return 0;
